@@ -59,7 +59,8 @@
 (*                                                                         *)
 (* INVARIANTS (the property clauses): SpacesExact, RejectExact,            *)
 (* MasksCover, SameValues, ConsistencyVanishes, ConsistentDerivatives,     *)
-(* EquilibriumConsistent, DOptAgrees, plus WellFormed / DyadicBounds /     *)
+(* EquilibriumConsistent, DOptAgrees, ResultsAreValues (a later evaluation *)
+(* does not change an earlier result), plus WellFormed / DyadicBounds /    *)
 (* OptimumKnown which justify the slice, and two deliberately FALSE claims *)
 (* (FalseClaim...) that TLC must refute (non-vacuity).                     *)
 (***************************************************************************)
@@ -206,7 +207,11 @@ Blank == [key |-> <<>>, D |-> <<>>, space |-> <<>>, obj |-> "f", cons |-> <<>>, 
 
 BuildInst(t, p, ch, sd) ==
   LET T == Topo(t)
-      S == T.D
+      \* even seeds: the disciplines that produce no coupling are elementwise-square ("sq") disciplines, so that the
+      \* Jacobians of the objective and of the user constraints DEPEND ON THE POINT (a result handed out for one
+      \* point can then be told from the result of another point)
+      S == TLCEval([d \in 1..Len(T.D) |-> IF sd % 2 = 0 /\ T.D[d].outs \cap Cpl(T.D) = {}
+                                          THEN [T.D[d] EXCEPT !.kind = "sq"] ELSE T.D[d]])
       sz == SizeOf(T, p)
       ps == PairSeq(S)
       cbi(o, i) == LET k == CHOOSE k \in 1..Len(ps) : ps[k] = <<o, i>> IN ((ch \div (NCat ^ (k - 1))) % NCat) + 1
@@ -651,6 +656,21 @@ FalseClaimPartialIsTotal ==
               i == IDFPoint(inst, G, form.norm, IDFAt(inst, G, XPt(inst, k), Deltas(inst)[1]))
           IN  \A v \in SeqSet(X) : i.obj.jac[v] = m.obj.jac[v]
 
+(* ResultsAreValues: what a formulation exposes at a point is a VALUE determined by the instance,  *)
+(* the formulation and that point alone - whatever was evaluated before or is evaluated later      *)
+(* (the replay evaluates every point of a case first, keeps every returned array, evaluates the    *)
+(* first point again, and only then compares each kept array with its record here).                *)
+PointAlone(k) == IF form.F = "MDF" THEN MDFPoint(inst, res.space, XPt(inst, k))
+                 ELSE DOptPoint(inst, res.space, XPt(inst, k))
+ResultsAreValues ==
+  (phase = "built" /\ form.F \in {"MDF", "DOPT"}) => \A k \in 1..NPts : res.pts[k] = PointAlone(k)
+\* the Jacobian records of two points of the case differ (then a kept result can be told from a later one)
+JacVaries ==
+  /\ Len(res.pts) >= 2
+  /\ \E k \in 2..Len(res.pts) :
+        \/ res.pts[k].obj.jac # res.pts[1].obj.jac
+        \/ \E c \in 1..Len(res.pts[k].cons) : res.pts[k].cons[c].jac # res.pts[1].cons[c].jac
+
 (* OptimumKnown: on the quadratic instances xopt is THE minimiser of the MDF problem: interior,  *)
 (* zero total gradient, weights >= 0 and positive definite Hessian 2 R' W R (R = dr/dx total),  *)
 (* user constraints (g <= 0) strictly inactive.                                                  *)
@@ -696,6 +716,6 @@ EmitOK ==
   ELSE IF phase = "rejected"
   THEN PrintT(<<"REJECT", inst.key, form.F, form.gsv, GSpace(inst, form.gsv)>>)
   ELSE IF (KeyHash(inst.key) + FormHash(form)) % EmitMod \in EmitRes
-  THEN PrintT(<<"CASE", inst.key, form, GSpace(inst, form.gsv), res>>)
+  THEN PrintT(<<"CASE", inst.key, form, GSpace(inst, form.gsv), res, JacVaries>>)
   ELSE TRUE
 =============================================================================
